@@ -1268,3 +1268,99 @@ def real_redirect(case, recorder_params):
         out['sent'] = shared['sent']
         return out
     return arun(go())
+
+
+# ------------------------------------------------------------------ overlapping sessions on one recorder
+class InterleaveServer:
+    """The response for `/s<i>` is delivered piece by piece when the harness calls feed(i)."""
+
+    def __init__(self, shared):
+        self.shared = shared
+        self.buf = b''
+
+    def on_write(self, conn, data):
+        self.buf += data
+        while b'\r\n\r\n' in self.buf:
+            head, _, self.buf = self.buf.partition(b'\r\n\r\n')
+            path = head.split(b' ')[1].decode('latin-1')
+            i = int(path[2:])
+            self.shared['conn'][i] = conn
+            self.shared['requests'].append((self.shared['net'].conns.index(conn), i, head + b'\r\n\r\n'))
+
+    def on_close(self, conn):
+        if not conn.server_closed and not conn.reader._eof:
+            conn.reader.feed_eof()
+            conn.server_closed = True
+
+
+def real_interleave(case, recorder_params):
+    """2-3 HTTP sessions of ONE Client (one pool, one WARCRecorder listening) open at the same
+    time: `steps` is the interleaving - ('create', i) calls client.session(), ('start', i) lets
+    session i run start()+download(), ('feed', i) makes the server deliver the next piece of
+    response i.  Whatever is left is delivered round-robin at the end."""
+    from wpull.protocol.http.client import Client
+    from wpull.protocol.http.request import Request
+    from wpull.network.pool import ConnectionPool
+    from wpull.warc.recorder import WARCRecorder
+
+    async def go():
+        net = fakenet.FakeNet()
+        pieces = [list(p) for p in case['pieces']]
+        shared = {'net': net, 'conn': {}, 'requests': []}
+        net.listen('10.0.0.1', 80, lambda: InterleaveServer(shared))
+        out = {}
+        with net:
+            client = Client(connection_pool=ConnectionPool(resolver=fakenet.FakeResolver(), max_host_count=case['limit']))
+            recorder = WARCRecorder(recorder_params['filename'], params=recorder_params['params'])
+            recorder.listen_to_http_client(client)
+            sessions, tasks, sinks = {}, {}, {}
+
+            async def spin(n):
+                for _ in range(n):
+                    await asyncio.sleep(0)
+
+            def feed(i):
+                conn = shared['conn'].get(i)
+                if conn is not None and pieces[i] and not conn.server_closed:
+                    conn.send(pieces[i].pop(0))
+                    if not pieces[i] and case['eofs'][i]:
+                        conn.close()
+
+            async def run(i):
+                session = sessions.get(i) or client.session()
+                sinks[i] = io.BytesIO()
+                with session:
+                    response = await compat._ensure(session.start(Request('http://h/s%d' % i)))
+                    await compat._ensure(session.download(sinks[i]))
+                    return response
+            for kind, i in case['steps']:
+                if kind == 'create':
+                    sessions[i] = client.session()
+                elif kind == 'start':
+                    tasks[i] = asyncio.ensure_future(run(i))
+                else:
+                    feed(i)
+                await spin(8)
+            for i in range(len(pieces)):
+                if i not in tasks:
+                    tasks[i] = asyncio.ensure_future(run(i))
+            for _ in range(60):
+                if all(t.done() for t in tasks.values()):
+                    break
+                for i in range(len(pieces)):
+                    feed(i)
+                    await spin(6)
+            for i, t in tasks.items():
+                if not t.done():
+                    t.cancel()
+                    out[i] = ('stalled', None, b'')
+                    continue
+                try:
+                    response = t.result()
+                    out[i] = ('ok', response.status_code, sinks[i].getvalue())
+                except Exception as e:
+                    out[i] = ('exc', classify_exc(e), b'')
+            await spin(5)
+            recorder.close()
+        return out, [(c, i) for c, i, _ in shared['requests']]
+    return arun(go())
